@@ -37,21 +37,27 @@ fn acf_lags(run: &Run, xi: &[i128], shift: f64, maxlag: i32) {
 /// the series is written into `buf` in place (same allocation when the length allows): the functions
 /// are pure, a buffer they have seen before with other contents must not matter
 fn acf_lags_in(run: &Run, xi: &[i128], shift: f64, maxlag: i32, buf: &mut Vec<f64>) {
+    acf_lags_sc(run, xi, shift, 1.0, maxlag, buf)
+}
+
+/// data = integers · sc + shift with sc a power of two (exact): autocovariances scale by sc², autocorrelations
+/// do not change
+fn acf_lags_sc(run: &Run, xi: &[i128], shift: f64, sc: f64, maxlag: i32, buf: &mut Vec<f64>) {
     let n = xi.len();
     buf.clear();
-    buf.extend(xi.iter().map(|&v| v as f64 + shift));
+    buf.extend(xi.iter().map(|&v| v as f64 * sc + shift));
     let x: &Vec<f64> = buf;
     let c0 = acov_exact(xi, 0);
-    let var = c0.to_f64();
-    let range = (xi.iter().max().unwrap() - xi.iter().min().unwrap()) as f64;
+    let var = c0.to_f64() * sc * sc;
+    let range = (xi.iter().max().unwrap() - xi.iter().min().unwrap()) as f64 * sc;
     let mean = x.iter().sum::<f64>() / n as f64;
     let tol_cov = 16.0 * n as f64 * U * (var + mean.abs() * range + range * range) + 1e-300;
-    let cls = if shift == 0.0 { "no-offset" } else { "offset" };
+    let cls = if shift == 0.0 { "no-offset" } else if sc != 1.0 { "offset-small-scale" } else { "offset" };
     for k in -maxlag..=maxlag {
         run.case();
         run.trs(2);
         run.ok();
-        let ck = acov_exact(xi, k.unsigned_abs() as usize).to_f64();
+        let ck = acov_exact(xi, k.unsigned_abs() as usize).to_f64() * sc * sc;
         let desc = || format!("x={:?} lag {}", x, k);
         match guard(|| acovf(&x, k)) {
             Ok(g) => {
@@ -230,6 +236,36 @@ fn ar_suite(run: &Run, x: &[f64], p: usize, horizons: usize, tag: &str) {
         }
         Err(e) => run.violate("AR.predict/panic", || format!("{}: {}", desc(), e)),
     }
+    // forecasts from a history that is not the fitted series (its last p values, a recent window, the
+    // series continued by new observations): the model's mean and coefficients apply, the history is
+    // centred on the model's mean
+    if n > p + 8 {
+        let mut cont: Vec<f64> = x.to_vec();
+        cont.extend([x[n - 1] + 1.0, x[n - 2] - 2.0, x[0] + 3.0]);
+        let hists: Vec<(&str, Vec<f64>)> = vec![("last p values", x[n - p..].to_vec()), ("last p+7 values", x[n - p - 7..].to_vec()), ("first half", x[..n / 2].to_vec()), ("series continued by 3 observations", cont)];
+        for (hname, hx) in hists {
+            if hx.len() < p {
+                continue;
+            }
+            run.tr();
+            let hh = horizons.min(25);
+            let refs = forecast_ref(&ar.coeffs, ar.intercept, &hx, hh);
+            match guard(|| ar.predict(&hx, hh)) {
+                Ok(f) => {
+                    if f.len() != hh || (0..hh).any(|h| !((f[h] - refs[h].0).abs() <= refs[h].1)) {
+                        run.violate("AR.predict/recursion/other-history", || format!("{}: forecasts from the {} = {:?}, mean + recursion on that history centred on the fitted mean gives {:?}", desc(), hname, &f[..f.len().min(4)], refs.iter().take(4).map(|r| r.0).collect::<Vec<_>>()));
+                        break;
+                    } else {
+                        run.regime("predict-from-other-history");
+                    }
+                }
+                Err(e) => {
+                    run.violate("AR.predict/panic", || format!("{} ({}): {}", desc(), hname, e));
+                    break;
+                }
+            }
+        }
+    }
     match guard(|| ar.predict_one(x)) {
         Ok(g) => {
             if !((g - refs[0].0).abs() <= refs[0].1) {
@@ -319,6 +355,19 @@ pub fn run(run: &Run) {
             let xi: Vec<i128> = synth(len, &[0.6, -0.3], seed + 3).iter().map(|v| *v as i128).collect();
             for shift in [0.0, 1e3, 1e6] {
                 acf_lags(run, &xi, shift, 50);
+            }
+        }
+    }
+    // a large level with a small spread (level/sd from 1e3 to 1e8): integers scaled by 2^-k plus an offset
+    for &len in &[60usize, 500] {
+        let xi: Vec<i128> = synth(len, &[0.6, -0.3], 5).iter().map(|v| *v as i128).collect();
+        let mut buf: Vec<f64> = Vec::new();
+        for &(shift, k) in &[(1e6, 8), (1e6, 4), (1e6, 12), (1e6, 16), (1e3, 8), (1e3, 14), (1e3, 22), (65536.0, 10), (1e8, 2), (1e8, 10)] {
+            let sc = 2f64.powi(-k);
+            // representable exactly: |v|·2^-k + shift needs at most 53 bits
+            if xi.iter().all(|v| ((*v as f64) * sc + shift - shift) == (*v as f64) * sc) {
+                acf_lags_sc(run, &xi, shift, sc, 30, &mut buf);
+                run.regime("acf-offset-small-scale");
             }
         }
     }
